@@ -24,6 +24,7 @@ inductive VE where
   | noneToInf (e : VE)         -- `[_ if _ is not None else ±inf for _ in e]`
   | maxConst (e : VE) (c : Rat) -- `numpy.maximum(e, c)`
   | ifNone (c a b : VE)        -- `a if c is None else b`
+  | clip (e lo hi : VE)        -- `numpy.clip(e, lo, hi)`: `e` a vector, `lo` / `hi` bound lists (or `None`)
 deriving DecidableEq, Repr
 
 /-- the element type of a numpy array, as far as it matters here: what a STORE into the array keeps of a value.  `_project_params_up`
@@ -55,6 +56,20 @@ structure Wrapper where
   optUpper : Option VE
   result : VE                -- first returned value
   reportsFopt : Bool         -- second returned value (with full output) is the optimiser's reported optimum, unchanged
+deriving DecidableEq, Repr
+
+/-- how one wrapper calls `_object_func`: the arguments of the call bound against `_object_func`'s own SIGNATURE (positional `args=(…)`
+    tuple of the scipy wrappers, keywords of the closure in `NLopt_mod.opt`) -/
+structure ObjCall where
+  wrapper : String                       -- function name (`optimize_log`, `opt`, …)
+  own : List String                      -- the wrapper's own parameter names (its signature)
+  binding : List (String × String)       -- (parameter of `_object_func`, argument expression as written in the wrapper), signature order
+deriving DecidableEq, Repr
+
+/-- one axis of the search grid of `optimize_grid`, as `numpy.index_exp` spells it -/
+inductive GridSlice where
+  | count (a b : Rat) (m : Nat)              -- `a:b:mj`: m points from a to b, both ends included
+  | step (a b s : Rat) (intLit : Bool)       -- `a:b:s`: a, a+s, … below b; `intLit`: all three written as integers
 deriving DecidableEq, Repr
 
 /-- one clamp statement of `Misc.perturb_params`: which bound list it reads, and the elementwise formula -/
